@@ -112,6 +112,7 @@ def matcher_class(ctx):
 def check(ctx):
     run = ctx.run
     matchers.r8_matcher_kind(ctx)
+    matchers.r8_selector_not_truth_tested(ctx)
     matcher_class(ctx)
     matchers.r9_anchored(ctx, {'dataflows.helpers.resource_matcher'}, floor=1)
     # R7: package phases of selector-taking steps
@@ -155,6 +156,8 @@ def check(ctx):
             rows_level.append((f, 'rows'))
     n6 += stream.r6_identity_rows(ctx, rows_level)
     run.floor('R6c', n6, 20, 'unmatched-path instances')
+    n29 = stream.r29_no_shared_fields(ctx, stream.package_phase_functions(ctx))
+    run.floor('R29', n29, 8, 'schema field stores')
     matchers.r10_arity(ctx)
     run.trusted += ['re: a pattern ^x$ used with match() accepts exactly the names x fully matches (modulo a trailing newline)']
     run.not_decided += ['regex semantics on names with metacharacters beyond anchoring',
